@@ -543,9 +543,13 @@ class BootEngine(object):
         from rigsim.seams import Seams, install_net
         from rigsim.machine import SimMachine
         lossy = t.draw(4) == 0
-        self.policy = FaultPolicy(
-            {"req_loss": [0.02, 0.2][t.draw(2)]} if lossy else {},
-            timeout=0.05, jitter=0.0, fifo_requests=True)
+        rates = {"req_loss": [0.02, 0.2][t.draw(2)]} if lossy else {}
+        if t.draw(3) == 0:
+            # sleeps (the pauses between boot datagrams, the wait for the
+            # machine to come up) last longer than asked
+            rates["sleep_overshoot"] = [0.1, 0.5][t.draw(2)]
+        self.policy = FaultPolicy(rates, timeout=0.05, jitter=0.0,
+                                  fifo_requests=True)
         self.net = SimNetwork(w, self.policy)
         self.net.on_tx = self.on_tx
         self.net.send_fail_hook = self.send_hook
